@@ -375,6 +375,26 @@ _TABLE = {
 }
 
 
+TRAINABLE = ("binary", "ternary", "stochastic_binary", "stochastic_ternary", "bernoulli",
+             "quantized_bits", "quantized_linear")
+
+
+def effective(cfg):
+  """Configuration the object documents after the post-construction mutation
+  cfg["mutation"] in {"none", "trainable", "qdense"}: `_set_trainable_parameter()`
+  (called directly, or by every Q* layer on its kernel quantizer) turns
+  alpha=None into alpha='auto_po2' (and symmetric=True for the fixed-point
+  classes); a quantizer built with any other alpha is left alone."""
+  if cfg.get("mutation", "none") == "none" or cfg["cls"] not in TRAINABLE:
+    return cfg
+  kw = dict(cfg["kw"])
+  if kw.get("alpha", None) is None:
+    kw["alpha"] = "auto_po2"
+    if cfg["cls"] in ("quantized_bits", "quantized_linear"):
+      kw["symmetric"] = 1
+  return dict(cfg, kw=kw)
+
+
 def reference(cfg, x, qscale=None):
   x = np.asarray(x, dtype=np.float64)
   if cfg["cls"] in FINITE_ONLY:
